@@ -30,7 +30,7 @@ QuickScenarios == Gen(MainSegs, 2, 0..4, {0, 1, 2}, {0, 1, 2, 3}, {2, Big}, 0..6
 QuickScenarios3 == Gen({"pag", "pit"}, 3, 0..3, {1, 2}, {1, 2}, {Big}, {0}, {0}, 2)
 QuickAll == QuickScenarios \cup QuickScenarios3
 IntendedScenarios == Gen(MainSegs, 2, 0..3, {0, 1, 2}, {0, 1, 2}, {2, Big}, 0..5, {0, 2}, 2) \cup QuickScenarios3
-TableScenarios == Gen(AllSegs, 2, 0..3, {0, 1, 2}, {0, 1, 2}, {1, Big}, 0..4, {0, 1}, 2)
+TableScenarios == Gen(MainSegs, 2, 0..3, {0, 1, 2}, {0, 1, 2}, {Big}, 0..3, {0}, 2) \cup Gen(AllSegs, 1, 0..3, {0, 1, 2}, {0, 1, 2}, {1, Big}, {0}, {0, 1}, 2)
 SelfTestScenarios == Gen({"scroll", "pag", "pit"}, 2, 0..3, {0, 1, 2}, {0, 1, 2}, {Big}, {0}, {0}, 2)
 SelfTestScenarios2 == Gen({"pag"}, 2, 0..4, {1}, {3}, {Big}, {0}, {0}, 2)
 
